@@ -19,6 +19,7 @@ type clockOp struct {
 	O string `json:"o"`
 	V uint64 `json:"v,omitempty"`
 	J int    `json:"j,omitempty"`
+	H bool   `json:"h,omitempty"` // through a clock handle obtained earlier (GetOrCreateClock), not by name
 }
 
 // clockSession drives one named clock of a go-git repository (PersistedClock) or of the mock
@@ -34,16 +35,24 @@ func clockSession(c *runCtx, r *rng, persisted bool, allowDamage bool) {
 	}
 	n := r.rangeInt(1, c.pick(40, 200))
 	var ops []clockOp
-	var outs []any
+	outs := []any{}
 	var seen uint64 // largest value returned or witnessed so far while the file was intact
 	damaged := false
+	// a handle on the clock, as the two halves of repo.Increment / repo.Witness hold one while another
+	// goroutine lists the clocks (identity creation calls AllClocks): "hold" and "all" are not clock
+	// operations (the model skips them), an operation marked h goes through the handle
+	var held lamport.Clock
 	for i := 0; i < n; i++ {
 		var op clockOp
-		switch x := r.intn(20); {
+		switch x := r.intn(23); {
+		case x >= 20 && x < 22:
+			op = clockOp{O: "time", H: true} // and keep the handle
+		case x >= 22:
+			op = clockOp{O: "all"}
 		case x < 7:
-			op = clockOp{O: "inc"}
+			op = clockOp{O: "inc", H: held != nil && r.chance(1, 2)}
 		case x < 12:
-			op = clockOp{O: "wit", V: uint64(r.intn(int(seen) + 12))}
+			op = clockOp{O: "wit", V: uint64(r.intn(int(seen) + 12)), H: held != nil && r.chance(1, 2)}
 			if r.chance(1, 10) {
 				op.V = seen + uint64(r.intn(100000))
 			}
@@ -70,9 +79,23 @@ func clockSession(c *runCtx, r *rng, persisted bool, allowDamage bool) {
 			}
 			repo = wrapKeyring(rr)
 		}
+		if op.O == "reopen" || op.O == "delete" || op.O == "truncate" {
+			held = nil
+		}
 		switch op.O {
+		case "all":
+			if _, err := repo.AllClocks(); err != nil && !damaged {
+				c.violation(c.nCases, "C05/all-clocks-failed", "AllClocks failed: "+err.Error(), ops)
+			}
+			continue
 		case "inc":
-			t, err := repo.Increment(name)
+			var t lamport.Time
+			var err error
+			if op.H {
+				t, err = held.Increment()
+			} else {
+				t, err = repo.Increment(name)
+			}
 			if err != nil {
 				res = "err"
 			} else {
@@ -85,7 +108,12 @@ func clockSession(c *runCtx, r *rng, persisted bool, allowDamage bool) {
 				}
 			}
 		case "wit":
-			err := repo.Witness(name, lamport.Time(op.V))
+			var err error
+			if op.H {
+				err = held.Witness(lamport.Time(op.V))
+			} else {
+				err = repo.Witness(name, lamport.Time(op.V))
+			}
 			if err != nil {
 				res = "err"
 			} else {
@@ -103,6 +131,9 @@ func clockSession(c *runCtx, r *rng, persisted bool, allowDamage bool) {
 			if err != nil {
 				res = "err"
 			} else {
+				if op.H {
+					held = cl
+				}
 				res = uint64(cl.Time())
 				if !damaged && uint64(cl.Time()) < seen {
 					c.violation(c.nCases, "C05/clock-went-back", fmt.Sprintf("clock reads %d although %d had been seen", cl.Time(), seen), ops)
